@@ -158,6 +158,17 @@ def lwrap():
 
 lmk3 = lwrap()
 ''',
+    "ld": '''
+@rec
+def lmk4():
+    a = 0
+
+    def lfun4(x):
+        a = x + {K}
+        return a
+
+    return lfun4
+''',
     "lk": '''
 class LK:
     def lmake2(self):
@@ -186,9 +197,9 @@ def rec(fn):
     return wrapper
 '''
 
-TARGETS = ["top", "meth", "om", "inner", "leaf", "dec", "maker", "deep", "ctop", "hdec", "rfun", "lmaker", "lfun", "dec2", "lmake2", "lfun2", "lmk3", "lfun3"]  # ctop/hdec share their bare names with top/dec
-PROBE_ONLY = {"maker", "deep", "lmaker", "lmake2", "lmk3"}
-LAZY = {"lfun": "lmaker", "lfun2": "lmake2", "lfun3": "lmk3"}  # instance -> its factory  # calling them again would create a second live closure
+TARGETS = ["top", "meth", "om", "inner", "leaf", "dec", "maker", "deep", "ctop", "hdec", "rfun", "lmaker", "lfun", "dec2", "lmake2", "lfun2", "lmk3", "lfun3", "lmk4", "lfun4"]  # ctop/hdec share their bare names with top/dec
+PROBE_ONLY = {"maker", "deep", "lmaker", "lmake2", "lmk3", "lmk4"}
+LAZY = {"lfun": "lmaker", "lfun2": "lmake2", "lfun3": "lmk3", "lfun4": "lmk4"}  # instance -> its factory  # calling them again would create a second live closure
 
 _DIR = None
 _N = [0]
@@ -243,7 +254,7 @@ class World:
     def make(self, t="lfun"):
         if t not in self.lazy and LAZY[t] in self.present:
             self.lazy[t] = {"lfun": lambda: self.mod.lmaker(), "lfun2": lambda: self.mod.LK().lmake2(),
-                            "lfun3": lambda: self.mod.lmk3()}[t]()
+                            "lfun3": lambda: self.mod.lmk3(), "lfun4": lambda: self.mod.lmk4()}[t]()
             self.present.add(t)
             return True
         return False
@@ -258,7 +269,7 @@ class World:
 
     def _has(self, t):
         return {"top": "top", "meth": "Outer", "om": "Outer", "inner": "inner", "leaf": "leaf", "dec": "dec",
-                "maker": "maker", "deep": "deep", "ctop": "Coll", "hdec": "hdec", "rfun": "rfun", "lmaker": "lmaker", "dec2": "dec2", "lmake2": "LK", "lmk3": "lmk3"}[t] in vars(self.mod)
+                "maker": "maker", "deep": "deep", "ctop": "Coll", "hdec": "hdec", "rfun": "rfun", "lmaker": "lmaker", "dec2": "dec2", "lmake2": "LK", "lmk3": "lmk3", "lmk4": "lmk4"}[t] in vars(self.mod)
 
     def real(self, t):
         """The function object created by the def."""
@@ -269,7 +280,8 @@ class World:
                 "hdec": lambda: m.hdec, "rfun": lambda: m.rfun, "lmaker": lambda: m.lmaker,
                 "lfun": lambda: self.lazy["lfun"], "lfun2": lambda: self.lazy["lfun2"],
                 "dec2": lambda: m.REG["dec2"], "lmake2": lambda: m.LK.lmake2, "lmk3": lambda: m.lmk3,
-                "lfun3": lambda: self.lazy["lfun3"]}[t]()
+                "lfun3": lambda: self.lazy["lfun3"], "lmk4": lambda: m.REG["lmk4"],
+                "lfun4": lambda: self.lazy["lfun4"]}[t]()
 
     def handle(self, t):
         """What a user would pass to refstring()."""
@@ -280,13 +292,14 @@ class World:
                 "hdec": lambda: m.hdec, "rfun": lambda: m.rfun, "lmaker": lambda: m.lmaker,
                 "lfun": lambda: self.lazy["lfun"], "lfun2": lambda: self.lazy["lfun2"],
                 "dec2": lambda: m.dec2, "lmake2": lambda: m.LK.lmake2, "lmk3": lambda: m.lmk3,
-                "lfun3": lambda: self.lazy["lfun3"]}[t]()
+                "lfun3": lambda: self.lazy["lfun3"], "lmk4": lambda: m.lmk4,
+                "lfun4": lambda: self.lazy["lfun4"]}[t]()
 
     def name_selector(self, t):
         return {"top": "top > a", "meth": "Outer.Inner.meth > a", "om": "Outer.om > a", "inner": "inner > a",
                 "leaf": "leaf > a", "dec": "dec > a", "maker": "maker > a", "deep": "deep > a",
                 "ctop": "Coll.top > a", "hdec": "hdec > a", "rfun": "rfun > a", "lmaker": "lmaker > a", "lfun": "lfun > a", "dec2": "dec2 > a", "lmake2": "LK.lmake2 > a",
-                "lfun2": "lfun2 > a", "lmk3": "lmk3 > a", "lfun3": "lfun3 > a"}[t]
+                "lfun2": "lfun2 > a", "lmk3": "lmk3 > a", "lfun3": "lfun3 > a", "lmk4": "lmk4 > a", "lfun4": "lfun4 > a"}[t]
 
     def call(self, t, x):
         m = self.mod
@@ -484,21 +497,22 @@ def strategy(max_ops):
         st.tuples(st.just("call"), tgt, st.integers(0, 9)),
         st.tuples(st.just("resolve"), tgt),
         st.tuples(st.just("resolve"), tgt),
-        st.tuples(st.just("make"), st.sampled_from(["lfun", "lfun2", "lfun3"])),
+        st.tuples(st.just("make"), st.sampled_from(["lfun", "lfun2", "lfun3", "lfun4"])),
     )
 
     @st.composite
     def cases(draw):
         order = draw(st.permutations(sorted(BLOCKS)))
         order = list(order)[: draw(st.integers(2, len(order)))]
-        ks = {t: draw(st.integers(1, 40)) * 20 + i for i, t in enumerate(["top", "meth", "om", "inner", "leaf", "dec", "ctop", "hdec", "rfun", "lfun", "dec2", "lk", "lw"])}
+        ks = {t: draw(st.integers(1, 40)) * 20 + i for i, t in enumerate(["top", "meth", "om", "inner", "leaf", "dec", "ctop", "hdec", "rfun", "lfun", "dec2", "lk", "lw", "ld"])}
         ks["lfun2"] = ks["lk"]
         ks["lfun3"] = ks["lw"]
+        ks["lfun4"] = ks["ld"]
         # bias: operate mostly on one or two targets so that probes overlap
         focus = draw(st.one_of(
             st.lists(tgt, min_size=1, max_size=2),
             st.sampled_from([["inner", "maker"], ["leaf", "deep"], ["meth", "om"], ["leaf", "deep", "maker"],
-                             ["top", "ctop"], ["dec", "hdec"], ["rfun"], ["lfun", "lmaker"], ["lfun", "lmaker", "lfun"], ["lfun2", "lmake2"], ["lfun3", "lmk3"], ["dec2"],
+                             ["top", "ctop"], ["dec", "hdec"], ["rfun"], ["lfun", "lmaker"], ["lfun", "lmaker", "lfun"], ["lfun2", "lmake2"], ["lfun3", "lmk3"], ["lfun4", "lmk4"], ["dec2"],
                              ["dec2", "dec"]]),
         ))
         ops = draw(st.lists(op, min_size=3, max_size=max_ops))
